@@ -9,7 +9,9 @@ from hypothesis import strategies as st
 import spectrum
 
 IDTYPES = [["int16", -3000, 3000], ["int16", -200, 200], ["int8", -100, 100], ["uint8", 0, 255], ["int32", -30000, 30000],
-           ["int64", -3000, 3000], ["uint16", 0, 60000]]
+           ["int64", -3000, 3000], ["uint16", 0, 60000],
+           # wide integers holding large values (byte counters, tick counts): sums of products of such values do not fit int64
+           ["int64", -3000000000, 3000000000]]
 
 
 @st.composite
@@ -53,8 +55,8 @@ def body(ctx, case, table, prop_tol=1e-8):
     xi, xf = samples(case)
     sig = {"fn": name, "idtype": case["idtype"]}
     ctx.sig_on_exception = sig
-    ctx.cls(name, case["idtype"], "tone" if case["tone"] else "noise")
-    ctx.nontrivial(case["idtype"] != "int64")
+    ctx.cls(name, case["idtype"] + (" large values" if case["hi"] > 10 ** 6 else ""), "tone" if case["tone"] else "noise")
+    ctx.nontrivial(case["idtype"] != "int64" or case["hi"] > 10 ** 6)
     want = flat(f(xf))
     got = flat(f(xi))
     ctx.check(len(got) == len(want), "%s: %d outputs for %s samples, %d for float64" % (name, len(got), case["idtype"], len(want)), sig=sig)
@@ -127,7 +129,9 @@ TABLES = {
 
 
 # ---- memory-layout invariance ------------------------------------------------------
-LAYOUTS = ["strided", "realpart", "column", "negstride", "fortran_row", "nplist", "pylist"]
+# (the last two are not layouts in the strict sense: the same values in the other byte order -- a record read from a
+# big-endian file -- and in a buffer that must not be written to: numpy.frombuffer, a memory map opened read-only)
+LAYOUTS = ["strided", "realpart", "column", "negstride", "fortran_row", "nplist", "pylist", "byteswapped", "readonly"]
 
 
 @st.composite
@@ -165,6 +169,11 @@ def layout_pair(case):
     elif lay == "negstride":
         base = v[::-1].copy()
         view = base[::-1]
+    elif lay == "byteswapped":
+        view = v.astype(v.dtype.newbyteorder())
+    elif lay == "readonly":
+        view = v.copy()
+        view.flags.writeable = False
     else:
         base = np.asfortranarray(np.vstack([v, 2 * v + 1]))
         view = base[0]
@@ -178,7 +187,7 @@ def layout_body(ctx, case, table, tol=1e-10):
     sig = {"fn": name, "layout": case["layout"]}
     ctx.sig_on_exception = sig
     ctx.cls(name, case["layout"], "complex" if case["complex"] else "real")
-    ctx.nontrivial(isinstance(view, list) or not view.flags["C_CONTIGUOUS"])
+    ctx.nontrivial(isinstance(view, list) or not view.flags["C_CONTIGUOUS"] or case["layout"] in ("byteswapped", "readonly"))
     keep = np.array(view)
     want = flat(f(flatcopy))
     got = flat(f(view))
